@@ -129,6 +129,18 @@ class Total(Harness):
         for c in els:
             allp = s_and(allp, (32 <= c <= 126) if isinstance(c, int) else zx.mkbool(z3.And(z3.UGE(c, 32), z3.ULE(c, 126))))
         yield 'valid-ascii-flag', b['valid_ascii'] == allp
+        if self.prefix == 'SSH-2.0-':
+            # parts of the sanitised line: software = up to the first blank, comments = the rest (blank runs collapsed)
+            san = zx.mkstr([c if isinstance(c, int) and 32 <= c <= 126 else (63 if isinstance(c, int) else z3.If(z3.And(z3.UGE(c, 32), z3.ULE(c, 126)), c, z3.BitVecVal(63, 24))) for c in els])
+            pieces = san.split(' ') if not isinstance(san, str) else san.split(' ')
+            if not bool(pieces[0] == ''):
+                rest = [p_ for p_ in pieces[1:] if not bool(p_ == '')]
+                cm = None
+                if rest:
+                    cm = rest[0]
+                    for p_ in rest[1:]:
+                        cm = cm + ' ' + p_
+                yield 'parts-of-the-sanitised-line', s_and(s_eq_opt(b['software'], pieces[0]), s_eq_opt(b['comments'], cm), b['protocol'] == [2, 0])
         r = obs['str']
         yield 'str-no-exception', not isinstance(r, Exc)
         if not isinstance(r, Exc):
